@@ -8,7 +8,7 @@ def check(tier, seed):
     return G.generic_check(PID, "proof", tier, seed, coq=True,
         rule="obligations: theorems of coq/properties/C03.v over PosImpl.v; correspondence: operation sequences on the real Position vs PosImpl.run_ops evaluated inside Coq, 105 observables (incl. key, piece sets, material, psq sums, game phase, check cache, repetition 1-3, insufficient material) after every operation (pos-cases); monitor: random games (corpus + random placements); at every position a random depth-first excursion (depth 3 quick / 5 thorough) of pseudo-legal moves incl. promotions, captures on rook squares, en passant, castling and null moves, with the check cache filled at random; a snapshot of every public observable (FEN, key, 12 piece sets, occupancy, king squares, material, psq sums, game phase, in-check, last move/capture, history length, repetition 1-3, evaluation) is compared before/after; distinct = distinct Zobrist keys of the start positions",
         streams=[dict(name="position_model_vs_engine", kind="coqprint", shards=lambda t: 4 if t == "quick" else 16,
-                      args=lambda t, s, sh, path: ["pos-cases", 14 if t == "quick" else 60, s * 1000 + 700 + sh, path], coq_timeout=3000),
+                      args=lambda t, s, sh, path: ["pos-cases", 14 if t == "quick" else 60, s * 1000 + 700 + sh, path], coq_timeout=3000, replay_kinds=['undo-does-not-restore']),
                  dict(name="undo_monitor", kind="monitor", shards=lambda t: 8,
                       args=lambda t, s, sh, path: ["pos-monitor", 800 if t == "quick" else 12000, s * 1000 + sh, 3 if t == "quick" else 5],
                       violation_kinds=["undo-does-not-restore"])])
